@@ -1,6 +1,7 @@
 ---------------------------- MODULE Trace_Classes ----------------------------
 (* Validation of executions recorded from the real jsonargparse (code -> spec) for property C14.                      *)
 (* TRACE_FILE holds [fams |-> <<family, ...>>, cases |-> <<[f, T, items, obs, pair], ...>>]:                            *)
+(*   (dflt, chan: the default of the argument and the channel of the first source, see Classes.tla)                   *)
 (*   f      index of the class family (the harness generated a module with exactly these classes, whose constructors  *)
 (*          log their keyword arguments), T the class the argument --x is typed with, items the sources as in         *)
 (*          Classes.tla -- exactly what the harness concretised (argv / --cfg text) and executed;                     *)
@@ -11,6 +12,7 @@
 (* TLC runs the Alg machine on every recorded case and prints <<"R", index, clause>> for every failing clause:        *)
 (*   "ref"            the parse outcome is not what the property says          (verdict)                              *)
 (*   "ref-dev-stale" / "ref-dev-nokw" / "ref-dev-both"   ... but exactly what the named dict_kwargs deviation gives   *)
+(*   "ref-dev-envreq" ... rejected exactly where the named environment-variable deviation rejects                    *)
 (*   "ref-log"        the constructor log does not rebuild the normal form     (verdict)                              *)
 (*   "ref-inst-raise" instantiate_classes raised on an accepted spec           (verdict; "-nokw": the named deviation)*)
 (*   "ref-pair"       short form and explicit form do not denote the same configuration (verdict)                     *)
@@ -25,7 +27,7 @@ N == Len(Cases)
 
 VARIABLE tid
 TraceFamOf(c) == Data.fams[c.f]    \* FamOf <- TraceFamOf in the cfg: the family is not part of the state
-Init == \E t \in 1..N : tid = t /\ InitCase([f |-> Cases[t].f, T |-> Cases[t].T, items |-> Cases[t].items])
+Init == \E t \in 1..N : tid = t /\ InitCase([f |-> Cases[t].f, T |-> Cases[t].T, items |-> Cases[t].items, dflt |-> Cases[t].dflt, chan |-> Cases[t].chan])
 TNext == Next /\ UNCHANGED tid
 
 Say(idx, clause) == PrintT(<<"R", idx, clause>>)
@@ -42,9 +44,11 @@ Check == Done =>
       o == c.obs
       p == ObsParsed(o)
       ref == RefOf(NoDev)
-  IN /\ (p = ref) \/ Say(tid, IF p = RefOf([stale |-> TRUE, nokw |-> FALSE]) THEN "ref-dev-stale"
-                              ELSE IF p = RefOf([stale |-> FALSE, nokw |-> TRUE]) THEN "ref-dev-nokw"
-                              ELSE IF p = RefOf(CodeDev) THEN "ref-dev-both" ELSE "ref")
+      Allowed(dev) == p = RefOfF(dev, TRUE) \/ p = RefOfF(dev, FALSE)       \* both readings of the default (see RefStart)
+  IN /\ Allowed(NoDev) \/ Say(tid, IF Allowed([stale |-> TRUE, nokw |-> FALSE]) THEN "ref-dev-stale"
+                                   ELSE IF Allowed([stale |-> FALSE, nokw |-> TRUE]) THEN "ref-dev-nokw"
+                                   ELSE IF Allowed(CodeDev) THEN "ref-dev-both"
+                                   ELSE IF EnvReqDeviation /\ ~o.ok THEN "ref-dev-envreq" ELSE "ref")
      /\ (p = AlgParsed) \/ Say(tid, "alg")
      /\ (o.ok /\ o.inst = "ok") => (LogOK(FamOf(cs), o.v, o.log, o.root, o.rtype) \/ Say(tid, "ref-log"))
      /\ (o.ok /\ o.inst = "raise") => Say(tid, IF Unchecked(FamOf(cs), o.v) THEN "ref-inst-raise-nokw" ELSE "ref-inst-raise")
